@@ -578,7 +578,9 @@ func (h *Harness) runPath(ps *PathSolver, prefix []int) (res *PathResult) {
 	x.now = MkBV(64, 1_000_000_000_000_000)
 	x.preemptBudget = 0
 	ps.begin()
+	solver0 := ps.s.TimeNs
 	defer func() {
+		res.SolverS = float64(ps.s.TimeNs-solver0) / 1e9
 		res.Steps = x.steps
 		res.Trace = x.trace
 		res.Notes = append(res.Notes, x.notes...)
